@@ -11,6 +11,7 @@ import Tickit.Proof.LifeTopEnd
 import Tickit.Proof.LifeFrames
 import Tickit.Proof.LifeOut
 import Tickit.Model.LifeTmp
+import Tickit.Proof.LifeTmp
 import Tickit.Gen.Life
 /-
   Property C08 — no API history touches freed or foreign memory, and everything is released.
@@ -931,10 +932,54 @@ example : (match IoSt.dispatch ioFuel 0 ((({} : IoSt).watch { ready := true, act
 
 /-! ## the scratch block of a render buffer (runs of LINE cells in `tickit_renderbuffer_flush_to_term`) -/
 
-/-- Full statement (open): whatever the block holds and however long the run, the terminal is sent exactly the UTF-8 of
-    the run's characters — every byte read had been written, none lies beyond the block. -/
-def linerun_sends_what_was_written : Prop :=
-  ∀ (t : Tmp) (cps : List Nat), 6 ≤ t.size → ∃ t', t.lineRun cps = .ok (t', cps.flatMap utf8Bytes)
+/-- **linerun_sends_what_was_written**: whatever the block holds and however long the run, the terminal is sent exactly
+    the UTF-8 of the run's characters — every byte read had been written, none lies beyond the block (`Tmp.read` fails on
+    either).  The premise `6 ≤ t.size` is what makes one doubling enough for any sequence (the library allocates 256). -/
+theorem linerun_sends_what_was_written :
+    ∀ (t : Tmp) (cps : List Nat), 6 ≤ t.size → ∃ t', t.lineRun cps = .ok (t', cps.flatMap utf8Bytes) :=
+  fun t cps h => let ⟨t', h', _⟩ := Tmp.lineRun_ok t cps h; ⟨t', h'⟩
+
+/-- **tmp_cat_keeps_block**: one `tmp_cat_utf8` on a block that holds `bs` in `tmp[0 .. tmplen)` with `tmplen ≤ tmpsize`:
+    afterwards it holds `bs` followed by the character's bytes (a `realloc` on the way keeps what was written),
+    `tmplen ≤ tmpsize` again, and the block has not shrunk. -/
+theorem tmp_cat_keeps_block (t : Tmp) (bs : List UInt8) (cp : Nat) (h : t.Holds bs) :
+    (t.catUtf8 cp).Holds (bs ++ utf8Bytes cp) ∧ t.size ≤ (t.catUtf8 cp).size := h.cat cp
+
+/-- **linerun_block_inv**: after a run of any length `tmplen ≤ tmpsize`, the bytes below `tmplen` are exactly the ones
+    sent, and the block is at least as large as before. -/
+theorem linerun_block_inv (t : Tmp) (cps : List Nat) (h : 6 ≤ t.size) :
+    ∃ t', t.lineRun cps = .ok (t', cps.flatMap utf8Bytes) ∧ t'.len ≤ t'.size ∧
+      t'.mem.take t'.len = (cps.flatMap utf8Bytes).map some ∧ t.size ≤ t'.size :=
+  let ⟨t', h', inv, hs⟩ := Tmp.lineRun_ok t cps h; ⟨t', h', inv.fits, inv.written, hs⟩
+
+/-- **flush_lineruns_send_what_was_written**: all LINE runs of a buffer, row after row through the one scratch block as
+    `tickit_renderbuffer_flush_to_term` uses it: every run is sent as the UTF-8 of its glyphs, whatever `linemask_to_char[]`
+    is and however wide the buffer. -/
+theorem flush_lineruns_send_what_was_written (glyph : Int → Nat) (b : RBObj) (t : Tmp) (h : 6 ≤ t.size) :
+    ∃ t', flushLineRuns glyph b t = .ok (t', (b.cells.toList.flatMap (fun row => lineRunsOfRow row.toList)).flatMap
+      (fun run => (run.map glyph).flatMap utf8Bytes)) := by
+  obtain ⟨t', h', _⟩ := lineRuns_ok ((b.cells.toList.flatMap (fun row => lineRunsOfRow row.toList)).map (List.map glyph)) t [] h
+  refine ⟨t', ?_⟩
+  unfold flushLineRuns
+  rw [List.foldlM_map] at h'
+  rw [h']
+  simp [List.flatMap_map]
+
+/-- The hypotheses are satisfiable and the statement bites: the block a buffer starts with, a run that needs two doublings. -/
+example : 6 ≤ ({} : Tmp).size := by decide +kernel
+example : ({} : Tmp).Holds [] := ⟨by decide +kernel, by decide +kernel, by decide +kernel⟩
+example : ∃ t', ({} : Tmp).lineRun (List.replicate 200 0x2500) = .ok (t', (List.replicate 200 0x2500).flatMap utf8Bytes) ∧ 256 < t'.size := by
+  obtain ⟨t', h, inv, _⟩ := Tmp.lineRun_ok {} (List.replicate 200 0x2500) (by decide +kernel)
+  refine ⟨t', h, ?_⟩
+  have h1 := inv.fits
+  have h2 : t'.len = 600 := by
+    have := congrArg List.length inv.written
+    rw [List.length_take, List.length_map] at this
+    have h3 : ((List.replicate 200 0x2500).flatMap utf8Bytes).length = 600 := by decide +kernel
+    unfold Tmp.size at h1; omega
+  omega
+/-- The premise cannot be dropped: a 2-byte block doubled once has no room for a 6-byte sequence (the library's is 256). -/
+example : (match ({ mem := [none, none] } : Tmp).lineRun [0x4000000] with | .ub .mem _ => true | _ => false) = true := by decide +kernel
 
 /-- Instances: runs of 85, 86 and 200 box-drawing characters through the 256-byte block the buffer starts with (86 is
     the first length at which `tmp_cat_utf8` has to grow it). -/
